@@ -4,6 +4,6 @@ T=${1:-quick}; S=${2:-0}
 cd /verif
 for i in 01 02 03 04 05 06 07 08 09 10 11 12 13 14 15 16 17 18 19 20; do
   OUT=$(VERIF_SEED=$S ./check C$i --tier $T 2>&1); RC=$?
-  echo "C$i exit=$RC $(echo "$OUT" | grep "^C$i tier" | sed 's/evidence=.*//' | cut -c1-230)"
-  echo "$OUT" | grep -E "^VIOLATION|^HARNESS" | head -5
+  echo "C$i exit=$RC $(echo "$OUT" | grep -a "^C$i tier" | sed 's/evidence=.*//' | cut -c1-230)"
+  echo "$OUT" | grep -aE "^VIOLATION|^HARNESS" | head -5
 done
